@@ -1958,7 +1958,7 @@ func (c *Ctx) r1013() {
 // R10.14: the HTML minifier re-enters itself for iframe content only to a bounded depth.
 func (c *Ctx) r1014() {
 	const rule = "R10.14"
-	c.R.Rule(rule, "the content of an iframe element is raw text for the lexer and is handed, through the registry, to the HTML minifier again (media type htmlMimeBytes): a recursion that R10.12 cannot see as a self-call. An unterminated `<iframe>` makes the rest of the document its content, so `<iframe>` repeated n times recurses n deep and re-lexes the rest each time — unbounded recursion and quadratic time on a 300 kB input. In html.(*Minifier).Minify every assignment that selects htmlMimeBytes as the media type of an embedded call is reachable only through the true outcome of a comparison `d < K` (tests of one variable against different constants exclude each other) of a depth d, read from the call's parameters with strconv.Atoi, with a constant, and the parameters passed on carry strconv.Itoa(d + positive constant)")
+	c.R.Rule(rule, "raw text (the content of iframe, script and style elements) is handed, through the registry, to a minifier chosen by a media type — htmlMimeBytes for an iframe, or whatever the element's type attribute says (`<script type=text/html>`): the HTML minifier can be entered again, a recursion that R10.12 cannot see as a self-call. An unterminated element makes the rest of the document its content, so `<iframe>` or `<script type=text/html>` repeated n times recurses n deep and re-lexes the rest each time — unbounded recursion and quadratic time. In html.(*Minifier).Minify, for every embedded call m.MinifyMimetype(M, …, P) with a variable media type: every assignment to M that is not one of the constant non-HTML types is reachable only through the true outcome of a comparison `d < K` of a depth d (read from the call's own parameters with strconv.Atoi) with a constant, and every path from such an assignment, and from every assignment that replaces P as a whole, to the call passes a store of strconv.Itoa(d + positive constant) into P — a depth in the document's type attribute (`type=\"text/html;nesting=-99\"`) is overwritten")
 	pk := c.pkg(rule, "html")
 	if pk == nil {
 		return
@@ -1987,74 +1987,73 @@ func (c *Ctx) r1014() {
 		}
 		return true
 	})
-	n := 0
-	for _, y := range g.Nodes {
-		as, ok := y.Stmt.(*ast.AssignStmt)
-		if !ok || y.Kind != flow.KStmt || len(as.Lhs) != 1 || len(as.Rhs) != 1 || nospace(str(as.Rhs[0])) != "htmlMimeBytes" {
-			continue
+	var dv types.Object
+	// the outcome nodes "depth < K" (true) of comparisons of a depth variable with a constant
+	isBound := func(q *flow.Node) bool {
+		if (q.Kind != flow.KTrue && q.Kind != flow.KFalse) || q.Of == nil || q.Of.Kind != flow.KCond {
+			return false
 		}
-		n++
-		var dv types.Object
-		// the outcome nodes "depth < K" (true) of comparisons of a depth variable with a constant
-		isBound := func(q *flow.Node) bool {
-			if (q.Kind != flow.KTrue && q.Kind != flow.KFalse) || q.Of == nil || q.Of.Kind != flow.KCond {
+		be, ok := ast.Unparen(q.Of.Expr).(*ast.BinaryExpr)
+		if !ok {
+			return false
+		}
+		var v, k ast.Expr
+		less := false
+		switch be.Op {
+		case token.LSS, token.LEQ:
+			v, k, less = be.X, be.Y, true
+		case token.GTR, token.GEQ:
+			v, k, less = be.Y, be.X, true
+		}
+		if !less {
+			return false
+		}
+		if _, isK := intConst(info, k); !isK {
+			// the other direction: K <= d false  ⇔  d < K
+			v, k = k, v
+			if _, isK2 := intConst(info, k); !isK2 {
 				return false
 			}
-			be, ok := ast.Unparen(q.Of.Expr).(*ast.BinaryExpr)
-			if !ok {
-				return false
-			}
-			var v, k ast.Expr
-			less := false
-			switch be.Op {
-			case token.LSS, token.LEQ:
-				v, k, less = be.X, be.Y, true
-			case token.GTR, token.GEQ:
-				v, k, less = be.Y, be.X, true
-			}
-			if !less {
-				return false
-			}
-			if _, isK := intConst(info, k); !isK {
-				// the other direction: K <= d false  ⇔  d < K
-				v, k = k, v
-				if _, isK2 := intConst(info, k); !isK2 {
-					return false
-				}
-				if id, ok := ast.Unparen(v).(*ast.Ident); ok && depth[info.Uses[id]] && q.Kind == flow.KFalse {
-					dv = info.Uses[id]
-					return true
-				}
-				return false
-			}
-			if id, ok := ast.Unparen(v).(*ast.Ident); ok && depth[info.Uses[id]] && q.Kind == flow.KTrue {
+			if id, ok := ast.Unparen(v).(*ast.Ident); ok && depth[info.Uses[id]] && q.Kind == flow.KFalse {
 				dv = info.Uses[id]
 				return true
 			}
 			return false
 		}
-		for _, q := range g.Nodes {
-			isBound(q) // finds dv
+		if id, ok := ast.Unparen(v).(*ast.Ident); ok && depth[info.Uses[id]] && q.Kind == flow.KTrue {
+			dv = info.Uses[id]
+			return true
 		}
-		y := y
-		// (search from the head of the enclosing switch case: the function is large and the correlation of tests is only
-		// needed inside the case)
-		start := g.Entry
-		for _, q := range g.Nodes {
-			if q.Kind == flow.KTrue && q.Of != nil && q.Of.Kind == flow.KCase && g.Dominates(q, y) && (start == g.Entry || g.Dominates(start, q)) {
-				start = q
+		return false
+	}
+	for _, q := range g.Nodes {
+		isBound(q) // finds dv
+	}
+	// a store of strconv.Itoa(dv + k) into the parameters P
+	carries := func(q *flow.Node, P types.Object) bool {
+		as, ok := q.Stmt.(*ast.AssignStmt)
+		if !ok || q.Kind != flow.KStmt || dv == nil {
+			return false
+		}
+		target := false
+		for _, l := range as.Lhs {
+			switch x := ast.Unparen(l).(type) {
+			case *ast.Ident:
+				if info.Uses[x] == P || info.Defs[x] == P {
+					target = true
+				}
+			case *ast.IndexExpr:
+				if id, ok := ast.Unparen(x.X).(*ast.Ident); ok && info.Uses[id] == P {
+					target = true
+				}
 			}
 		}
-		unbounded := g.Path(flow.Search{From: []*flow.Node{start}, IncludeFrom: true, Goal: func(q *flow.Node) bool { return q == y }, Avoid: func(q *flow.Node) bool { return isBound(q) || !g.Dominates(start, q) }, Track: true})
-		bounded := dv != nil && unbounded == nil
-		c.R.Check(bounded, rule, fmt.Sprintf("html.Minifier.Minify/re-entrance for embedded HTML#%d is depth-bounded", n), c.pos(as), "behind `depth < constant`, the depth read from the parameters", "the HTML minifier hands embedded HTML (iframe content) to itself without a bound on the depth: `<iframe>` repeated 40000 times recurses 40000 deep and takes half a minute for 320 kB; deeper still the stack is exhausted")
-		if !bounded {
-			continue
+		if !target {
+			return false
 		}
-		// the parameters of that branch carry depth+k
-		passes := false
-		if blk, ok := c.P.Parent(as).(*ast.BlockStmt); ok {
-			ast.Inspect(blk, func(z ast.Node) bool {
+		hit := false
+		for _, r := range as.Rhs {
+			ast.Inspect(r, func(z ast.Node) bool {
 				call, ok := z.(*ast.CallExpr)
 				if !ok || calleeName(info, call) != "strconv.Itoa" || len(call.Args) != 1 {
 					return true
@@ -2065,15 +2064,108 @@ func (c *Ctx) r1014() {
 				}
 				if id, ok := ast.Unparen(be.X).(*ast.Ident); ok && info.Uses[id] == dv {
 					if k, isK := intConst(info, be.Y); isK && k > 0 {
-						passes = true
+						hit = true
 					}
 				}
 				return true
 			})
 		}
-		c.R.Check(passes, rule, fmt.Sprintf("html.Minifier.Minify/re-entrance for embedded HTML#%d passes the depth on", n), c.pos(as), "the parameters carry depth+k", "the depth is tested but not passed on increased to the embedded call: every level starts at the same depth and the bound never triggers")
+		return hit
 	}
-	c.R.Floor(rule, "re-entrance sites of the HTML minifier", n, 1)
+	assignsWhole := func(q *flow.Node, o types.Object) bool {
+		as, ok := q.Stmt.(*ast.AssignStmt)
+		if !ok || q.Kind != flow.KStmt {
+			return false
+		}
+		for _, l := range as.Lhs {
+			if id, ok := ast.Unparen(l).(*ast.Ident); ok && (info.Uses[id] == o || info.Defs[id] == o) {
+				return true
+			}
+		}
+		return false
+	}
+	n := 0
+	for _, cn := range g.Nodes {
+		a := cn.Ast()
+		if a == nil || cn.Kind != flow.KStmt && cn.Kind != flow.KCond {
+			continue
+		}
+		for _, call := range findCalls(info, a, false, load.Mod+".(M).MinifyMimetype") {
+			if len(call.Args) != 4 {
+				continue
+			}
+			mid, ok := ast.Unparen(call.Args[0]).(*ast.Ident)
+			if !ok {
+				continue
+			}
+			M, isLocal := info.Uses[mid].(*types.Var)
+			if !isLocal || M.Parent() == pk.Types.Scope() {
+				continue // a constant media type of the package
+			}
+			var P types.Object
+			if pid, ok := ast.Unparen(call.Args[3]).(*ast.Ident); ok {
+				P = info.Uses[pid]
+			}
+			cn := cn
+			for _, y := range g.Nodes {
+				as, ok := y.Stmt.(*ast.AssignStmt)
+				if !ok || y.Kind != flow.KStmt || !assignsWhole(y, M) {
+					continue
+				}
+				// constant non-HTML media types are no re-entrance
+				if len(as.Lhs) == 1 && len(as.Rhs) == 1 {
+					if rid, ok := ast.Unparen(as.Rhs[0]).(*ast.Ident); ok {
+						if rv, ok := info.Uses[rid].(*types.Var); ok && rv.Parent() == pk.Types.Scope() {
+							if txt, ok := c.byteVarText(pk, rv); ok && !strings.Contains(txt, "html") {
+								continue
+							}
+						}
+					}
+				}
+				// does it reach the call?
+				if g.Path(flow.Search{From: []*flow.Node{y}, Goal: func(q *flow.Node) bool { return q == cn }}) == nil {
+					continue
+				}
+				n++
+				y := y
+				// (search from the head of the enclosing switch case: the function is large and the correlation of tests is only
+				// needed inside the case)
+				start := g.Entry
+				for _, q := range g.Nodes {
+					if q.Kind == flow.KTrue && q.Of != nil && q.Of.Kind == flow.KCase && g.Dominates(q, y) && (start == g.Entry || g.Dominates(start, q)) {
+						start = q
+					}
+				}
+				unbounded := g.Path(flow.Search{From: []*flow.Node{start}, IncludeFrom: true, Goal: func(q *flow.Node) bool { return q == y }, Avoid: func(q *flow.Node) bool { return isBound(q) || !g.Dominates(start, q) }, Track: true})
+				bounded := dv != nil && unbounded == nil
+				c.R.Check(bounded, rule, fmt.Sprintf("html.Minifier.Minify/re-entrance for embedded HTML#%d (%s) is depth-bounded", n, nospace(stmtText(as))), c.pos(as), "behind `depth < constant`, the depth read from the parameters", "the HTML minifier can hand embedded text to itself without a bound on the depth (the media type is "+str(as.Rhs[0])+"): `<iframe>` or `<script type=text/html>` repeated n times recurses n deep and takes quadratic time; deeper still the stack is exhausted")
+				if !bounded {
+					continue
+				}
+				passes := P != nil
+				why := "the embedded call has no parameter variable"
+				if passes {
+					if p := g.Path(flow.Search{From: []*flow.Node{y}, Goal: func(q *flow.Node) bool { return q == cn }, Avoid: func(q *flow.Node) bool { return carries(q, P) }}); p != nil {
+						passes = false
+						why = "the call is reached without a store of the increased depth into its parameters: " + pathStr(c, g, p)
+					}
+				}
+				if passes {
+					for _, w := range g.Nodes {
+						if !assignsWhole(w, P) || carries(w, P) {
+							continue
+						}
+						if p := g.Path(flow.Search{From: []*flow.Node{w}, Goal: func(q *flow.Node) bool { return q == cn }, Avoid: func(q *flow.Node) bool { return carries(q, P) }}); p != nil {
+							passes = false
+							why = "the parameters are replaced at " + c.pos(w.Ast()) + " (by what the document's type attribute says) after the depth was stored, or without it being stored afterwards"
+						}
+					}
+				}
+				c.R.Check(passes, rule, fmt.Sprintf("html.Minifier.Minify/re-entrance for embedded HTML#%d (%s) passes the depth on", n, nospace(stmtText(as))), c.pos(as), "the parameters carry depth+k", "the depth is tested but not passed on increased to the embedded call: every level starts at the same depth and the bound never triggers — "+why)
+			}
+		}
+	}
+	c.R.Floor(rule, "re-entrance sites of the HTML minifier", n, 2)
 }
 
 // R10.15: a look-ahead loop over the token buffer ends at the error token.
@@ -2502,4 +2594,187 @@ func (c *Ctx) r1018() {
 		}
 	}
 	c.R.Floor(rule, "results of utf8.RuneLen bound to a variable", n, 1)
+}
+
+// R10.19: a look-ahead that steps over tokens of the kind it is run for is bounded.
+func (c *Ctx) r1019() {
+	const rule = "R10.19"
+	c.R.Rule(rule, "a look-ahead loop (Peek with a growing index) costs as much as the tokens it steps over. If the loop sits in the switch case of token kind K and can step over tokens of kind K, every one of a run of such tokens looks through the rest of the run again: quadratic time (`\"a \" + strings.Repeat(\"<!----> \", 40000)` took 7 s in the white space look-ahead of the HTML text case). For every such loop of the html, svg and xml minifiers: under the stipulation next.TokenType == K a path from the head of the loop to the increment of the index exists only if one of the loop's exits compares the index with a constant")
+	n := 0
+	for _, rel := range []string{"html", "svg", "xml"} {
+		pk := c.P.Pkg(rel)
+		if pk == nil {
+			continue
+		}
+		info := pk.TypesInfo
+		fd := c.fn(rule, pk, "Minifier.Minify")
+		if fd == nil {
+			continue
+		}
+		g := c.graph(pk, fd)
+		seen := 0
+		ast.Inspect(fd.Body, func(x ast.Node) bool {
+			fs, ok := x.(*ast.ForStmt)
+			if !ok {
+				return true
+			}
+			// Peek(<variable>) bound to a variable, and the variable incremented in the loop
+			var idx types.Object
+			var tok types.Object
+			ast.Inspect(fs.Body, func(w ast.Node) bool {
+				if inner, ok := w.(*ast.ForStmt); ok && inner != fs {
+					return false
+				}
+				as, ok := w.(*ast.AssignStmt)
+				if !ok || len(as.Lhs) != 1 || len(as.Rhs) != 1 {
+					return true
+				}
+				ce, ok := ast.Unparen(as.Rhs[0]).(*ast.CallExpr)
+				if !ok || !strings.HasSuffix(calleeName(info, ce), ".(TokenBuffer).Peek") || len(ce.Args) != 1 {
+					return true
+				}
+				if id, ok := ast.Unparen(ce.Args[0]).(*ast.Ident); ok {
+					if lid, ok := as.Lhs[0].(*ast.Ident); ok {
+						idx = info.Uses[id]
+						tok = info.Defs[lid]
+						if tok == nil {
+							tok = info.Uses[lid]
+						}
+					}
+				}
+				return true
+			})
+			if idx == nil || tok == nil {
+				return true
+			}
+			var incs []*flow.Node
+			for _, q := range g.Nodes {
+				if inc, ok := q.Stmt.(*ast.IncDecStmt); ok && q.Kind == flow.KStmt && inc.Tok == token.INC && fs.Body.Pos() <= inc.Pos() && inc.End() <= fs.End() {
+					if id, ok := inc.X.(*ast.Ident); ok && info.Uses[id] == idx {
+						incs = append(incs, q)
+					}
+				}
+			}
+			if len(incs) == 0 {
+				return true
+			}
+			label := c.caseLabel(fs)
+			if !strings.HasPrefix(label, "case ") {
+				return true
+			}
+			n++
+			seen++
+			// a constant bound among the exits
+			bounded := false
+			ast.Inspect(fs.Body, func(w ast.Node) bool {
+				ifs, ok := w.(*ast.IfStmt)
+				if !ok {
+					return true
+				}
+				be, ok := ast.Unparen(ifs.Cond).(*ast.BinaryExpr)
+				if !ok {
+					return true
+				}
+				leaves := false
+				for _, st := range ifs.Body.List {
+					if bs, ok := st.(*ast.BranchStmt); ok && bs.Tok == token.BREAK {
+						leaves = true
+					}
+					if _, ok := st.(*ast.ReturnStmt); ok {
+						leaves = true
+					}
+				}
+				if !leaves {
+					return true
+				}
+				for _, pr := range [][2]ast.Expr{{be.X, be.Y}, {be.Y, be.X}} {
+					if id, ok := ast.Unparen(pr[0]).(*ast.Ident); ok && info.Uses[id] == idx {
+						if _, isK := intConst(info, pr[1]); isK && (be.Op == token.LSS || be.Op == token.GTR || be.Op == token.LEQ || be.Op == token.GEQ) {
+							bounded = true
+						}
+					}
+				}
+				return true
+			})
+			if fs.Cond != nil {
+				ast.Inspect(fs.Cond, func(w ast.Node) bool {
+					if be, ok := w.(*ast.BinaryExpr); ok {
+						for _, pr := range [][2]ast.Expr{{be.X, be.Y}, {be.Y, be.X}} {
+							if id, ok := ast.Unparen(pr[0]).(*ast.Ident); ok && info.Uses[id] == idx {
+								if _, isK := intConst(info, pr[1]); isK {
+									bounded = true
+								}
+							}
+						}
+					}
+					return true
+				})
+			}
+			// the nodes that bind the peeked token: inside the loop, and the one in front of it
+			var peeks, inLoop []*flow.Node
+			for _, q := range g.Nodes {
+				as, ok := q.Stmt.(*ast.AssignStmt)
+				if !ok || q.Kind != flow.KStmt || len(as.Lhs) != 1 || len(as.Rhs) != 1 {
+					continue
+				}
+				lid, ok := as.Lhs[0].(*ast.Ident)
+				if !ok || (info.Defs[lid] != tok && info.Uses[lid] != tok) {
+					continue
+				}
+				ce, ok := ast.Unparen(as.Rhs[0]).(*ast.CallExpr)
+				if !ok || !strings.HasSuffix(calleeName(info, ce), ".(TokenBuffer).Peek") {
+					continue
+				}
+				peeks = append(peeks, q)
+				if fs.Pos() <= as.Pos() && as.End() <= fs.End() {
+					inLoop = append(inLoop, q)
+				}
+			}
+			var head *flow.Node
+			if len(peeks) > 0 && len(inLoop) > 0 {
+				head = peeks[0]
+			}
+			lo := fs.Pos()
+			for _, q := range peeks {
+				if a := q.Ast(); a != nil && a.Pos() < lo {
+					lo = a.Pos()
+				}
+			}
+			kinds := strings.Split(strings.TrimPrefix(label, "case "), ",")
+			var over []string
+			if head != nil {
+				for _, k := range kinds {
+					k = strings.TrimSpace(k)
+					assume := map[string]bool{c.P.NameOf(tok) + ".TokenType == " + k: true}
+					p := g.Path(flow.Search{From: peeks, Goal: func(q *flow.Node) bool {
+						for _, x := range inLoop {
+							if x == q {
+								return true
+							}
+						}
+						return false
+					}, Assume: assume, Track: true, TrackFields: true, Avoid: func(q *flow.Node) bool {
+						a := q.Ast()
+						return a != nil && (a.Pos() < lo || a.End() > fs.End())
+					}})
+					if p != nil {
+						over = append(over, k)
+					}
+				}
+			}
+			construct := fmt.Sprintf("%s.Minifier.Minify/%s/look-ahead loop#%d does not rescan a run of its own token kind", rel, label, seen)
+			switch {
+			case head == nil:
+				c.R.Unres(rule, construct, c.pos(fs), "loop body not found in the flow graph")
+			case len(over) > 0 && !bounded:
+				c.R.Bad(rule, construct, c.pos(fs), "the loop steps over tokens of kind "+strings.Join(over, ", ")+" — the kind it is run for — and no exit bounds its index by a constant: each token of a long run looks through the rest of the run again, quadratic time")
+			case len(over) > 0:
+				c.R.OK(rule, construct, c.pos(fs), "steps over "+strings.Join(over, ", ")+" but the index is bounded by a constant")
+			default:
+				c.R.OK(rule, construct, c.pos(fs), "stops at every token of its own kind")
+			}
+			return true
+		})
+	}
+	c.R.Floor(rule, "look-ahead loops inside a token case", n, 3)
 }
